@@ -66,9 +66,9 @@ func OddNames(r *rand.Rand, in PI) PI {
 	r.Shuffle(len(accs), func(i, j int) { accs[i], accs[j] = accs[j], accs[i] })
 	r.Shuffle(len(asts), func(i, j int) { asts[i], asts[j] = asts[j], asts[i] })
 	sep := []string{"/", "/", ":", "|", ",", "-", "_", ".", "#"}[r.IntN(9)]
-	x := []string{"a", "b", "users:1", "x"}[r.IntN(4)]
+	x := []string{"a", "b", "users:1", "x", "clients:zoé", "users.001", "sp ace"}[r.IntN(7)]
 	y := []string{"USD", "EUR", "COIN"}[r.IntN(3)]
-	z := []string{"2", "C", "6", "USD"}[r.IntN(4)]
+	z := []string{"2", "C", "6", "USD", "usd"}[r.IntN(5)]
 	accMap := map[string]string{accs[0]: x, accs[1]: x + sep + y}
 	astMap := map[string]string{asts[0]: y + sep + z, asts[1]: z}
 	// injective: a name that is not renamed must not coincide with a new name
